@@ -126,6 +126,15 @@ func allScenarios(tier string) []*Scenario {
 			}
 		}
 	}
+	// Shutdown called with a context that expires while the final flush is still being exported
+	// by a slow downstream: it must wait all the same
+	for _, early := range []bool{false, true} {
+		for _, k := range []uint32{0, 1} {
+			ss.add(Scenario{Name: fmt.Sprintf("D5-shutdown-deadline/er%s/k%d", bools(early), k), QB: 1, TB: 2, Signal: "logs", S: 10, Timeout: 4 * T, Early: early, K: k,
+				SinkDelay: 2 * T, ShutdownAt: T / 2, ShutdownTimeout: T / 4,
+				Callers: []CallerSpec{{Label: "A", Reqs: []Shape{simple("logs", "A", 1)}}, {Label: "B", ArriveAt: T / 4, Reqs: []Shape{simple("logs", "B", 2)}}}})
+		}
+	}
 	// D7 cancellation anywhere
 	for _, k := range []uint32{0, 1} {
 		ss.add(Scenario{Name: fmt.Sprintf("D7-cancel-merge/k%d", k), Signal: "traces", S: 4, Timeout: T, K: k, SinkFail: true,
